@@ -29,10 +29,13 @@ type ahEvent struct {
 
 var ahEjectFor = []time.Duration{time.Second, 30 * time.Second, 10 * time.Minute}
 
+// time that passes between two requests of the window (clipped so that no ejection window ends)
+var ahWindowAdvance = []time.Duration{time.Millisecond, 40 * time.Millisecond, 300 * time.Millisecond, time.Second, 3 * time.Second, 7 * time.Second, 20 * time.Second, 2 * time.Minute, time.Hour}
+
 func TestC06AffinityAfterHistory(t *testing.T) {
 	sub := lab.Sub("affinity-after-history", "rapid, virtual time: strategy in {ip_hash, ip_hash_consistent}, pool 2..10 (one case in twelve: 64/65/66/100/130), 1..4 observed clients (2..4 request variants each); history of 3..25 events: "+
 		"eject(i, 1s|30s|10m), re-admit (time passes beyond the window), advance, add, remove, request of an observed client (one time in three followed by the ejection of the very backend that served it), request of another client, selection of a strategy by the operator (lb.SetStrategy: the case's own again or any of the five; events then run under whatever is selected), a read-only admin / monitoring call (listings, metrics, health; see sub-check affinity); backends named by a drawn scheme (see affinity; removals reorder the pool as well); then, back under the case's strategy and with the eligible "+
-		"set stable, every observed client sends all its variants twice, interleaved with each other and with other clients, through lb.NextBackend or lb.ServeHTTP(L1), before one window request in four 1..2 read-only admin / monitoring calls are made, and before one window request in eight the operator re-selects the strategy (the active one again, or another one and back with 0..2 requests of other clients while away; members and ejections untouched, every judged request is sent under the case's strategy); "+
+		"set stable, every observed client sends all its variants twice, interleaved with each other and with other clients, through lb.NextBackend or lb.ServeHTTP(L1), before one window request in four 1..2 read-only admin / monitoring calls are made, and before one window request in eight the operator re-selects the strategy (the active one again, or another one and back with 0..2 requests of other clients while away; members and ejections untouched, every judged request is sent under the case's strategy), and before one window request in three time passes (1ms..1h of virtual time, clipped so that it stays strictly inside every running ejection window: the eligible set is unchanged, a client simply comes back later - also shortly after a backend was re-admitted by the history); "+
 		"oracle (window only): one backend per client, every choice an eligible member; non-trivial = >=2 eligible backends in the window and the history changed the eligible set "+
 		"after an observed client had already been served")
 	sub.NontrivialFloor(0.5)
@@ -42,6 +45,7 @@ func TestC06AffinityAfterHistory(t *testing.T) {
 	sub.Floor("observed-then-health-change", 0.5)
 	sub.Floor("strategy-reselected-in-window", 0.4)
 	sub.Floor("listing-in-window-of-unsorted-pool", 0.3)
+	sub.Floor("time-passes-in-window", 0.5)
 	lab.Check(t, sub, 2500, 60000, func(rt *rapid.T) {
 		strategy := rapid.SampledFrom(hashStrategies).Draw(rt, "strategy")
 		via := rapid.SampledFrom([]string{"next", "serve"}).Draw(rt, "via")
@@ -63,7 +67,9 @@ func TestC06AffinityAfterHistory(t *testing.T) {
 		nev := rapid.IntRange(3, 25).Draw(rt, "events")
 		var evs []ahEvent
 		var viol string
-		var nReadmit, nMember, nEligibleWin, nMembersWin, nSwitchHist, nSwitchWin, nObsHist, nObsWin int
+		var nReadmit, nMember, nEligibleWin, nMembersWin, nSwitchHist, nSwitchWin, nObsHist, nObsWin, nAdvWin int
+		var advWin time.Duration            // time that passed inside the window in total
+		var lastReadmit, winStart time.Time // virtual clock: last re-admission of the history, start of the window
 		unsortedWin, listedUnsortedWin := false, false
 		changedAfterObserved := false
 		rapid.SyncTest(rt, func(rt *rapid.T) {
@@ -88,6 +94,7 @@ func TestC06AffinityAfterHistory(t *testing.T) {
 						}
 						delete(p.ejected, b.Name)
 						nReadmit++
+						lastReadmit = now
 					}
 				}
 			}
@@ -212,6 +219,7 @@ func TestC06AffinityAfterHistory(t *testing.T) {
 			}
 			nMembersWin, nEligibleWin = len(p.names), len(p.names)-len(p.ejected)
 			unsortedWin = p.unsortedNow()
+			winStart = time.Now()
 			// window: every variant of every observed client twice, in a drawn order, others in between
 			type item struct{ c, v int }
 			var items []item
@@ -238,6 +246,25 @@ func TestC06AffinityAfterHistory(t *testing.T) {
 						}
 					}
 				}
+				// time passes between two window requests (a client comes back a moment, seconds or minutes
+				// later). The statement's only condition is an unchanged eligible set, and the only thing the
+				// clock can do to it is to end an ejection window - so the advance stays strictly inside every
+				// running ejection window (clipped to half of the shortest remainder). No sweep: nobody's
+				// window runs out, members and ejections are what they were.
+				if rapid.IntRange(0, 2).Draw(rt, "win_adv") == 0 {
+					d := rapid.SampledFrom(ahWindowAdvance).Draw(rt, "win_adv_d")
+					for nme := range p.ejected {
+						if rem := time.Until(until[nme]); d >= rem {
+							d = rem / 2
+						}
+					}
+					if d > 0 {
+						time.Sleep(d)
+						evs = append(evs, ahEvent{K: "adv-in-window", D: d.String()})
+						nAdvWin++
+						advWin += d
+					}
+				}
 				// between two window requests the operator re-selects the strategy: the active one again, or
 				// another one and back (traffic of other clients while away). The eligible set stays as it is,
 				// and every judged request is sent under the case's strategy.
@@ -262,7 +289,7 @@ func TestC06AffinityAfterHistory(t *testing.T) {
 				if f, ok := first[it.c]; !ok {
 					first[it.c], firstReq[it.c] = name, s
 				} else if f != name {
-					viol = fmt.Sprintf("after the history, with the eligible set stable (members %v, ejected %v; read-only admin/monitoring calls are the look events of the history): client %q: request %+v went to %s, request %+v went to %s",
+					viol = fmt.Sprintf("after the history, with the eligible set stable (members %v, ejected %v; read-only admin/monitoring calls are the look events of the history, time that passed between window requests without ending any ejection window the adv-in-window events): client %q: request %+v went to %s, request %+v went to %s",
 						p.names, keysOf(p.ejected), addrs[it.c], firstReq[it.c], f, s, name)
 					return
 				}
@@ -293,6 +320,15 @@ func TestC06AffinityAfterHistory(t *testing.T) {
 		}
 		if nObsWin > 0 {
 			labels = append(labels, "observer-in-window")
+		}
+		if nAdvWin > 0 {
+			labels = append(labels, "time-passes-in-window")
+			if advWin >= time.Second {
+				labels = append(labels, "seconds-or-more-pass-in-window")
+			}
+			if nReadmit > 0 && winStart.Sub(lastReadmit) < time.Minute {
+				labels = append(labels, "time-passes-in-window-within-a-minute-of-a-readmission")
+			}
 		}
 		if unsortedWin {
 			labels = append(labels, "pool-order-is-not-name-order-in-window")
